@@ -98,7 +98,7 @@ class Verifier:
                                 if m.attr in fields: out.add('%s.%s' % (cls, m.attr))
             elif isinstance(n, ast.Call):
                 fname = n.func.id if isinstance(n.func, ast.Name) else (n.func.attr if isinstance(n.func, ast.Attribute) else None)
-                if isinstance(n.func, ast.Attribute) and n.func.attr in E.MUTATING:
+                if isinstance(n.func, ast.Attribute) and n.func.attr in E.MUTATING and n.func.attr not in getattr(self.w, 'nonmutating', ()):
                     b = n.func.value
                     if isinstance(b, ast.Attribute):
                         for cls, fields in self.w.classes.items():
@@ -149,7 +149,7 @@ class Verifier:
         ob.instances += 1
         t0 = time.time()
         fs = z3.simplify(f)
-        if z3.is_true(fs):
+        if z3.is_true(fs) or f.get_id() in ex.assumed:      # trivially true, or literally one of the hypotheses (same term over unchanged state)
             ob.seconds += time.time() - t0; return
         # a fresh (non-incremental) solver per obligation: z3's incremental mode is markedly weaker on quantified goals
         fs = z3.Solver(); fs.set('timeout', self.timeout_ms)
